@@ -239,6 +239,7 @@ where
 /*@*/         v_ok(vstd::prelude::old(vf), old_range, new_range), v_ok(vstd::prelude::old(vb), old_range, new_range),
 /*@*/     ensures
 /*@*/         err_post(*vstd::prelude::old(d), *final(d), res),
+/*@*/         (*final(d)).fobs() == (*vstd::prelude::old(d)).fobs(),
 /*@*/         seg_post(*vstd::prelude::old(d), *final(d), old, old_range, new, new_range, alg_lvl(deadline), false, Seq::<Ev>::empty(), res.is_ok()),
 /*@*/         final(vf).wf(), final(vf).offset == vstd::prelude::old(vf).offset, final(vb).wf(), final(vb).offset == vstd::prelude::old(vb).offset,
 /*@*/     decreases (old_range.end - old_range.start) + (new_range.end - new_range.start),
@@ -371,6 +372,7 @@ where
 /*@*/     requires diff_pre(*vstd::prelude::old(d), old, old_range, new, new_range, alg_lvl(deadline)),
 /*@*/     ensures
 /*@*/         err_post(*vstd::prelude::old(d), *final(d), res),
+/*@*/         (*final(d)).fobs() == (*vstd::prelude::old(d)).fobs(),
 /*@*/         seg_post(*vstd::prelude::old(d), *final(d), old, old_range, new, new_range, alg_lvl(deadline), false, fin::<D>(), res.is_ok()),
 {
     let max_d = max_d(old_range.len(), new_range.len());
@@ -409,6 +411,7 @@ where
 /*@*/     requires diff_pre(*vstd::prelude::old(d), old, old_range, new, new_range, alg_lvl(None)),
 /*@*/     ensures
 /*@*/         err_post(*vstd::prelude::old(d), *final(d), res),
+/*@*/         (*final(d)).fobs() == (*vstd::prelude::old(d)).fobs(),
 /*@*/         seg_post(*vstd::prelude::old(d), *final(d), old, old_range, new, new_range, alg_lvl(None), false, fin::<D>(), res.is_ok()),
 {
     diff_deadline(d, old, old_range, new, new_range, None)
